@@ -478,7 +478,6 @@ theorem lineParse_defined (acls : List Acl) : ∀ (ts : List Bytes) (lits : List
   | t :: ts, lits => by
     intro h l hl
     unfold lineParse at h
-    simp only at h
     split at h
     · cases h
     · rename_i a hfa
